@@ -165,11 +165,24 @@ def to_perf(recs, shuffle_rng=None, layout=None, origin=ORIGIN):
         P.set_layout(True, True)
 
 
+def record_time(r):
+    """the time a history record carries"""
+    return r[{"fork": 5, "exit": 3, "comm": 5, "sample": 3, "mmap": 3, "switch": 3}[r[0]]]
+
+
 def _chain(mode, time):
     if mode != "mixed":
         return None
     k = (time // 1000 + time) % 4
     return [None, [], [P.PERF_CONTEXT_USER], [P.PERF_CONTEXT_KERNEL, P.PERF_CONTEXT_USER]][k]
+
+
+def _cpumode(mode, time):
+    """with "mixed" chains the samples also vary in the cpumode bits of their record header: mostly user, but also kernel, hypervisor, guest kernel /
+    guest user (a vcpu thread sampled while its guest runs, `perf kvm --host --guest record`) and unknown - a sample is a sample of its thread in every mode"""
+    if mode != "mixed":
+        return None
+    return [2, 2, 2, 1, 4, 5, 3, 0][(time // 7 + time // 1000) % 8]
 
 
 def _to_perf(recs, shuffle_rng=None, origin=ORIGIN, chains="std"):
@@ -183,7 +196,7 @@ def _to_perf(recs, shuffle_rng=None, origin=ORIGIN, chains="std"):
         elif k == "comm":
             out.append((r[5], P.comm(r[1], r[2], ("nm%d" % r[3]) if r[3] else "", r[5], r[4])))
         elif k == "sample":
-            out.append((r[3], P.sample(r[1], r[2], r[3], 0x401160, _chain(chains, r[3]))))
+            out.append((r[3], P.sample(r[1], r[2], r[3], 0x401160, _chain(chains, r[3]), cpumode=_cpumode(chains, r[3]))))
         elif k == "mmap":
             out.append((r[3], P.mmap2(r[1], r[2], 0x401000, 0x1000, 0x1000, MAPFILE, r[3])))
         elif k == "switch":
